@@ -161,6 +161,25 @@ pub struct Skew {
     pub object_level: bool,
 }
 
+/// Work for ANOTHER task that the same process performs between two library calls of this run (a client or an
+/// aggregator serving several tasks): sharding, and optionally verify_init at every aggregator, of an unrelated
+/// report. Library operations are functions of their arguments, so it must not change anything this run observes.
+#[derive(Clone, Debug, Serialize, Deserialize, PartialEq)]
+pub struct Foreign {
+    /// index of the run's own library call (shard / verify_init / combine / verify_next) before which it happens
+    pub at: u32,
+    /// another instance of the same class (None = the run's own instance)
+    pub other: Option<Inst>,
+    pub ctx: Hx,
+    /// Some(r): the nonce of report r of this run (same nonce under another context / instance)
+    pub nonce_of: Option<u32>,
+    pub nonce: Hx,
+    pub meas: Vec<N>,
+    pub rand: Hx,
+    /// 0 = shard only, 1 = shard + verify_init at every aggregator
+    pub depth: u8,
+}
+
 #[derive(Clone, Debug, Serialize, Deserialize, PartialEq)]
 pub struct PlanA {
     pub inst: Inst,
@@ -180,6 +199,9 @@ pub struct PlanA {
     /// a second, simultaneous mismatch of another kind (combined mismatches)
     #[serde(default)]
     pub skew2: Option<Skew>,
+    /// interleaved work for other tasks
+    #[serde(default)]
+    pub foreign: Vec<Foreign>,
     /// combiner proceeds with whatever it holds once the transport is idle
     #[serde(default)]
     pub timeouts: bool,
@@ -396,6 +418,8 @@ pub struct World<'p, 'c, 'cc, V: SimVdaf<VK>, A: Adapter<V>, const VK: usize> {
     /// bytes of the largest honest message of this instance (what the decoding parameters imply)
     pimplied: usize,
     n: usize,
+    /// number of own library calls made so far (foreign work is scheduled relative to it)
+    call_no: u32,
 }
 
 impl<'p, 'c, 'cc, V: SimVdaf<VK>, A: Adapter<V>, const VK: usize> World<'p, 'c, 'cc, V, A, VK> {
@@ -457,6 +481,7 @@ impl<'p, 'c, 'cc, V: SimVdaf<VK>, A: Adapter<V>, const VK: usize> World<'p, 'c, 
             byz_labels: Vec::new(),
             pimplied: 256,
             n,
+            call_no: 0,
         })
     }
 
@@ -516,6 +541,58 @@ impl<'p, 'c, 'cc, V: SimVdaf<VK>, A: Adapter<V>, const VK: usize> World<'p, 'c, 
         match self.skews().find(|s| s.what == "id") {
             Some(s) if s.object_level => j,
             _ => self.node_id(j),
+        }
+    }
+
+    /// Called before each own library call: perform the foreign work scheduled for this point.
+    fn foreign_point(&mut self) {
+        let at = self.call_no;
+        self.call_no += 1;
+        let plan: &'p PlanA = self.plan;
+        for f in plan.foreign.iter().filter(|f| f.at == at) {
+            let other: Option<V> = f.other.as_ref().and_then(|o| self.ad.same_type_instance(o));
+            if f.other.is_some() && other.is_none() {
+                self.ctx.counters.inc("foreign.other_instance_unavailable");
+                continue;
+            }
+            let vd: &V = other.as_ref().unwrap_or(self.vdaf);
+            let mut nonce = [0u8; 16];
+            match f.nonce_of.and_then(|r| plan.reports.get(r as usize)) {
+                Some(r) => nonce.copy_from_slice(&r.nonce.0),
+                None => {
+                    for (a, b) in nonce.iter_mut().zip(f.nonce.0.iter()) {
+                        *a = *b;
+                    }
+                }
+            }
+            self.ctx.fault(if f.other.is_some() { "foreign_work.other_instance" } else { "foreign_work.other_context" });
+            self.ctx.trace.str("foreign").u64(at as u64);
+            let (public_b, inputs_b) = match self.ad.shard(vd, &f.ctx.0, &f.meas, &nonce, &f.rand.0, false) {
+                Ok(x) => x,
+                Err(ShardErr::Panic(v)) => {
+                    self.ctx.fail(v);
+                    continue;
+                }
+                Err(ShardErr::Refused(_)) => {
+                    self.ctx.counters.inc("foreign.shard_refused");
+                    continue;
+                }
+            };
+            if f.depth == 0 {
+                continue;
+            }
+            let spec: ApSpec = if plan.inst.class == "poplar1" { vec![if f.meas.first().map(|m| m.0 != 0).unwrap_or(false) { "1".to_string() } else { "0".to_string() }] } else { Vec::new() };
+            let Ok(apv) = self.ad.agg_param(&spec) else { continue };
+            let Ok(public) = V::PublicShare::get_decoded_with_param(vd, &public_b) else { continue };
+            let key = self.vk;
+            for (j, ib) in inputs_b.iter().enumerate() {
+                let Ok(input) = V::InputShare::get_decoded_with_param(&(vd, j), ib) else { continue };
+                match guard("verify_init (foreign work)", || vd.verify_init(&key, &f.ctx.0, j, &apv, &nonce, &public, &input)) {
+                    Err(v) => self.ctx.fail(v),
+                    Ok(Err(_)) => self.ctx.counters.inc("foreign.verify_init_refused"),
+                    Ok(Ok(_)) => self.ctx.counters.inc("foreign.verify_init_ok"),
+                }
+            }
         }
     }
 
@@ -645,6 +722,7 @@ impl<'p, 'c, 'cc, V: SimVdaf<VK>, A: Adapter<V>, const VK: usize> World<'p, 'c, 
         for (ri, rep) in self.plan.reports.iter().enumerate() {
             let mut nonce = [0u8; 16];
             nonce.copy_from_slice(&rep.nonce.0);
+            self.foreign_point();
             let r = self.ad.shard(self.vdaf, &self.plan.ctx.0, &rep.meas, &nonce, &rep.rand.0, rep.evil);
             self.ctx.trace.str("shard").u64(ri as u64);
             match r {
@@ -703,6 +781,7 @@ impl<'p, 'c, 'cc, V: SimVdaf<VK>, A: Adapter<V>, const VK: usize> World<'p, 'c, 
 
     fn verify_init_job(&mut self, j: usize, rep: u32, ap: u32) -> Result<(V::VerifyState, Vec<u8>, Vec<u8>), String> {
         let (public_b, input_b) = self.nodes[j].reports.get(&rep).cloned().ok_or("no report")?;
+        self.foreign_point();
         let vdaf = self.node_vdaf(j);
         let id = self.node_id(j);
         let public = mon_decode(self.ctx, "PublicShare", &public_b, self.pimplied, |b| V::PublicShare::get_decoded_with_param(vdaf, b), |v| v.get_encoded(), |v| v.encoded_len()).ok_or("public share undecodable")?;
@@ -848,6 +927,7 @@ impl<'p, 'c, 'cc, V: SimVdaf<VK>, A: Adapter<V>, const VK: usize> World<'p, 'c, 
         } else if dec.len() == self.n + 1 {
             self.ctx.probe("combiner_n_plus_1");
         }
+        self.foreign_point();
         let vdaf = self.node_vdaf(0);
         let ctxb = self.node_ctx(0);
         let apv = &self.aps[ap as usize];
@@ -964,6 +1044,7 @@ impl<'p, 'c, 'cc, V: SimVdaf<VK>, A: Adapter<V>, const VK: usize> World<'p, 'c, 
                     }
                     return;
                 };
+                self.foreign_point();
                 let vdaf = self.node_vdaf(j);
                 let ctxb = self.node_ctx(j);
                 let r = guard("verify_next", || vdaf.verify_next(&ctxb, state, msg));
@@ -1353,6 +1434,45 @@ impl<'p, 'c, 'cc, V: SimVdaf<VK>, A: Adapter<V>, const VK: usize> World<'p, 'c, 
                     Err(v) => self.ctx.fail(v),
                     Ok(Ok(_)) => self.ctx.fail(Violation::new("C13.refusal", "aggregate|accepted_mismatch", format!("aggregate accepted a batch whose share #{pos} is {what}"))),
                     Ok(Err(_)) => self.ctx.counters.inc("c13.refusals"),
+                }
+            }
+            // the same refusals on a FRESH (all-zero) accumulator, which must then still be usable: the
+            // mismatched share arrives first, the good ones afterwards (order of arrival is the scheduler's)
+            for via_merge in [false, true] {
+                let mut fresh = vdaf.aggregate_init(&apv);
+                let Ok(fresh_b) = fresh.get_encoded() else { continue };
+                let other: V::AggregateShare = V::AggregateShare::from(bad.clone());
+                let r = if via_merge { guard("merge(mismatched share into a fresh aggregate)", || fresh.merge(&other)) } else { guard("accumulate(mismatched share into a fresh aggregate)", || fresh.accumulate(&bad)) };
+                let op = if via_merge { "merge" } else { "accumulate" };
+                match r {
+                    Err(v) => self.ctx.fail(v),
+                    Ok(Ok(())) => self.ctx.fail(Violation::new("C13.refusal", format!("{op}|fresh_accepted_mismatch"), format!("{op} into a fresh aggregate accepted a share that is {what}"))),
+                    Ok(Err(_)) => {
+                        self.ctx.counters.inc("c13.refusals_fresh");
+                        if fresh.get_encoded().ok().as_deref() != Some(&fresh_b[..]) {
+                            self.ctx.fail(Violation::new("C13.refusal", format!("{op}|fresh_changed"), format!("a refused {op} ({what}) changed a fresh aggregate")));
+                        }
+                    }
+                }
+                // carry on with the accumulator that saw the refusal
+                let mut ok = true;
+                for o in outs {
+                    match guard("accumulate after a refusal", || fresh.accumulate(o)) {
+                        Err(v) => {
+                            self.ctx.fail(v);
+                            ok = false;
+                            break;
+                        }
+                        Ok(Err(e)) => {
+                            self.ctx.fail(Violation::new("C13.refusal", format!("{op}|fresh_unusable"), format!("after a refused {op} ({what}) the aggregate refuses a well-formed output share: {e}")));
+                            ok = false;
+                            break;
+                        }
+                        Ok(Ok(())) => {}
+                    }
+                }
+                if ok && fresh.get_encoded().ok().as_deref() != Some(acc_b) {
+                    self.ctx.fail(Violation::new("C13.refusal", format!("{op}|fresh_differs"), format!("an aggregate that first refused a share ({what}, via {op}) and then accumulated the batch differs from the single-pass aggregate")));
                 }
             }
             let mut a2 = acc.clone();
